@@ -106,7 +106,17 @@ class DagWalker(Walker):
         if formula in self.memoization:
             return self.memoization[formula]
 
-        res = self.iter_walk(formula, **kwargs)
+        stack_size = len(self.stack)
+        try:
+            res = self.iter_walk(formula, **kwargs)
+        except BaseException:
+            # Leave no trace of the failed walk: the pending entries
+            # of the work stack (and the partial results of a one-shot
+            # memoization) would corrupt the next walk
+            del self.stack[stack_size:]
+            if self.invalidate_memoization and stack_size == 0:
+                self.memoization.clear()
+            raise
 
         if self.invalidate_memoization:
             self.memoization.clear()
